@@ -255,7 +255,13 @@ class _SetIteration:
             if not isinstance(to_iterate, _Base):
                 # We know _Base (Set, Bucket, Tree, TreeSet) will all iterate
                 # in sorted order. Other than that, we have no guarantee.
-                self.to_iterate = to_iterate = sorted(self.to_iterate)
+                to_iterate = sorted(self.to_iterate)
+                # The merge algorithms need strictly increasing keys,
+                # like the BTrees types deliver them: drop duplicates.
+                self.to_iterate = to_iterate = [
+                    k for i, k in enumerate(to_iterate)
+                    if not i or k != to_iterate[i - 1]
+                ]
 
         if useValues:
             try:
